@@ -51,6 +51,11 @@ SOFTWARE, EVEN IF ADVISED OF THE POSSIBILITY OF SUCH DAMAGE.
 #include <yara/strutils.h>
 #include <yara/utils.h>
 
+#ifdef YARA_VERIF
+// Verification hook: initial size of the compiler's arena buffers (0 = default).
+size_t yr_verif_arena_initial_size = 0;
+#endif
+
 static void _yr_compiler_default_include_free(
     const char* callback_result_ptr,
     void* user_data)
@@ -267,7 +272,14 @@ YR_API int yr_compiler_create(YR_COMPILER** compiler)
     result = yr_hash_table_create(10000, &new_compiler->sz_table);
 
   if (result == ERROR_SUCCESS)
+#ifdef YARA_VERIF
+    result = yr_arena_create(
+        YR_NUM_SECTIONS,
+        yr_verif_arena_initial_size ? yr_verif_arena_initial_size : 1048576,
+        &new_compiler->arena);
+#else
     result = yr_arena_create(YR_NUM_SECTIONS, 1048576, &new_compiler->arena);
+#endif
 
   if (result == ERROR_SUCCESS)
     result = yr_ac_automaton_create(
